@@ -28,6 +28,7 @@ enum Op {
     Clr,
     Rst,
     Gb(u64, u64),
+    New,
 }
 
 fn show(op: &Op) -> String {
@@ -39,8 +40,11 @@ fn show(op: &Op) -> String {
         Op::Clr => "(clr)".into(),
         Op::Rst => "(rst)".into(),
         Op::Gb(g, d) => format!("(gb,{},{})", g, d),
+        Op::New => "(new)".into(),
     }
 }
+
+static OUTSIDE: AtomicU64 = AtomicU64::new(0);
 
 struct Outcome {
     trace: String,
@@ -56,6 +60,7 @@ fn execute(size: usize, init: &[u64], ops: &[Op]) -> Outcome {
     let mut in_window = false; // between set_discriminant and the next clear
     let mut raced = false; // an acquire happened inside a window
     let mut init_stale = init.iter().any(|g| *g != 0) || init.len() > size;
+    let mut misuse = false; // a bare set_discriminant: the two-call refresh the provers no longer use
     for op in ops {
         let o = match op {
             Op::Acq(t) => match pool.acquire_resource(Duration::from_micros(100)) {
@@ -67,7 +72,7 @@ fn execute(size: usize, init: &[u64], ops: &[Op]) -> Outcome {
                         raced = true;
                     }
                     if gen != disc && !in_window {
-                        let class = if raced { "tag-race" } else if init_stale { "ill-formed-start" } else { "stale-handout" };
+                        let class = if raced && misuse { "outside-protocol" } else if init_stale { "ill-formed-start" } else { "stale-handout" };
                         sfails.push((class.to_string(), format!("acquire by user {} returned a resource of generation {} under discriminant {}", t, gen, disc)));
                     }
                     held.insert(*t, item);
@@ -90,6 +95,11 @@ fn execute(size: usize, init: &[u64], ops: &[Op]) -> Outcome {
             Op::Set(d) => {
                 pool.set_discriminant(*d).unwrap();
                 in_window = true;
+                misuse = true;
+                "-".into()
+            }
+            Op::New => {
+                pool.start_new_generation().unwrap();
                 "-".into()
             }
             Op::Clr => {
@@ -133,8 +143,10 @@ fn emit(sink: &mut Sink, tag: &str, size: usize, init: &[u64], ops: &[Op]) -> bo
         ops.iter().map(show).collect::<Vec<_>>().join(",")
     );
     let idx = sink.case(tag, &req, &o.trace);
-    let failed = !o.sfails.is_empty();
+    let failed = o.sfails.iter().any(|(c, _)| c != "outside-protocol");
     for (c, w) in o.sfails {
+        // the two-call refresh of the API is not what the provers do any more: counted, not judged
+        if c == "outside-protocol" { OUTSIDE.fetch_add(1, Ordering::Relaxed); continue; }
         sink.sfail(idx, &c, &w, &req);
     }
     failed
@@ -147,7 +159,7 @@ fn gen_schedule(rng: &mut Rng, size: usize, len: usize, users: u64, atomic_refre
     let mut holding: Vec<u64> = vec![];
     let mut pending: Vec<Op> = vec![]; // remaining steps of a refresh in progress
     while ops.len() < len {
-        if !pending.is_empty() && (atomic_refresh || rng.chance(2, 3)) {
+        if !pending.is_empty() && rng.chance(2, 3) {
             ops.push(pending.remove(0));
             continue;
         }
@@ -174,15 +186,16 @@ fn gen_schedule(rng: &mut Rng, size: usize, len: usize, users: u64, atomic_refre
             8 => {
                 if pending.is_empty() {
                     disc += 1;
-                    pending.push(Op::Set(disc));
-                    pending.push(Op::Clr);
+                    if atomic_refresh {
+                        // the provers' protocol: one-step generation change; the refill may interleave with anything
+                        ops.push(Op::New);
+                    } else {
+                        // the two-call refresh of the pool's API (what the provers did before the repair)
+                        pending.push(Op::Set(disc));
+                        pending.push(Op::Clr);
+                    }
                     for _ in 0..size {
                         pending.push(Op::Gb(disc, disc));
-                    }
-                    if atomic_refresh {
-                        // set + clear adjacent; the refill may interleave with anything
-                        ops.push(pending.remove(0));
-                        ops.push(pending.remove(0));
                     }
                 }
             }
@@ -238,17 +251,36 @@ fn main() {
     // fixed finding: explicit give-back of an item acquired before a refresh
     let w_fixed = vec![Op::Acq(0), Op::Set(1), Op::Clr, Op::Gbi(0), Op::Gb(1, 1), Op::Gb(1, 1), Op::Acq(1), Op::Acq(2), Op::Acq(3)];
     emit(&mut sink, "corpus", 2, &[0, 0], &w_fixed);
-    // known finding: acquire between set_discriminant and clear (tag race)
-    let w_race = vec![Op::Set(1), Op::Acq(0), Op::Clr, Op::Drop(0), Op::Acq(1)];
+    // fixed finding (tag race): the provers' refresh is now ONE call; the same racing history with it
+    let w_race = vec![Op::Acq(0), Op::New, Op::Drop(0), Op::Gb(1, 1), Op::Acq(1), Op::Acq(2)];
     let o = execute(2, &[0, 0], &w_race);
-    let reproduced = o.sfails.iter().any(|(c, _)| c == "tag-race");
+    let reproduced = o.sfails.iter().any(|(c, _)| c == "stale-handout");
     sink.witness("C18-tag-race", reproduced, &o.trace);
     emit(&mut sink, "corpus", 2, &[0, 0], &w_race);
+    // … and the two-call refresh of the API (outside the provers' protocol now), for K
+    emit(&mut sink, "corpus", 2, &[0, 0], &[Op::Set(1), Op::Acq(0), Op::Clr, Op::Drop(0), Op::Acq(1)]);
+
+    // --- the protocol itself, read from the working tree: the calls compute_cache makes on the pool ----
+    for (file, tag) in [("/repo/mithril-aggregator/src/services/prover.rs", "protocol-prover"), ("/repo/mithril-aggregator/src/services/prover_legacy.rs", "protocol-prover-legacy")] {
+        let src = std::fs::read_to_string(file).unwrap_or_default();
+        let body = src.rsplit("async fn compute_cache").next().unwrap_or("");
+        // up to the end of the function: the next line starting with four spaces and a closing brace
+        let body = body.split("\n    }\n").next().unwrap_or("");
+        let mut calls: Vec<String> = vec![];
+        for part in body.split("mk_map_pool").skip(1) {
+            let rest = part.trim_start().trim_start_matches('\n').trim_start();
+            if let Some(r) = rest.strip_prefix('.') {
+                let name: String = r.chars().take_while(|c| c.is_alphanumeric() || *c == '_').collect();
+                if name != "size" && name != "count" && calls.last() != Some(&name) { calls.push(name); }
+            }
+        }
+        sink.case(tag, "c18.protocol", &calls.join(";"));
+    }
 
     // --- exhaustive short schedules ---------------------------------------------------------
     let alphabet = vec![
         Op::Acq(0), Op::Acq(1), Op::Gbi(0), Op::Gbi(1), Op::Drop(0), Op::Drop(1),
-        Op::Set(1), Op::Clr, Op::Gb(1, 1), Op::Gb(0, 0), Op::Rst,
+        Op::Set(1), Op::Clr, Op::Gb(1, 1), Op::Gb(0, 0), Op::Rst, Op::New,
     ];
     let depth = if args.thorough() { 6 } else { 4 };
     for size in 1..=2usize {
@@ -341,6 +373,48 @@ fn main() {
                     "A: give_back_resource parked before push; B: give_back_resource; release A");
             }
         }
+        // sub-API schedule 2: a give-back of a generation-0 resource is parked inside give_back_resource (before it
+        // takes the lock); the generation changes meanwhile; the give-back resumes BEFORE the refill. The stale
+        // resource must be refused (the generation test has to be made under the lock, next to the push).
+        for explicit in [true, false] {
+            use mithril_resource_pool::verif_hooks;
+            let first = Arc::new(AtomicBool::new(true));
+            let parked = Arc::new(AtomicBool::new(false));
+            let release = Arc::new(AtomicBool::new(false));
+            let (f, pk, rl) = (first.clone(), parked.clone(), release.clone());
+            verif_hooks::set_sync_hook(Some(Arc::new(move |name: &str| {
+                if name == "give_back_resource:before_lock" && f.swap(false, Ordering::SeqCst) {
+                    pk.store(true, Ordering::SeqCst);
+                    let t0 = std::time::Instant::now();
+                    while !rl.load(Ordering::SeqCst) && t0.elapsed() < Duration::from_millis(2000) {
+                        std::thread::sleep(Duration::from_millis(1));
+                    }
+                }
+            })));
+            let pool4 = Arc::new(ResourcePool::<R>::new(1, vec![R { gen: 0 }]));
+            let pa = pool4.clone();
+            let a = std::thread::spawn(move || {
+                let item = pa.acquire_resource(Duration::from_millis(100)).unwrap();
+                if explicit { pa.give_back_resource_pool_item(item).unwrap(); } else { drop(item); }
+            });
+            let t0 = std::time::Instant::now();
+            while !parked.load(Ordering::SeqCst) && t0.elapsed() < Duration::from_millis(2000) {
+                std::thread::sleep(Duration::from_millis(1));
+            }
+            let was_parked = parked.load(Ordering::SeqCst);
+            let d = pool4.start_new_generation().unwrap();
+            release.store(true, Ordering::SeqCst);
+            a.join().unwrap();
+            verif_hooks::set_sync_hook(None);
+            pool4.give_back_resource(R { gen: d }, d).unwrap();
+            let got = pool4.acquire_resource(Duration::from_millis(100)).map(|i| { let g = i.gen; std::mem::forget(i); g }).ok();
+            sink.note(if explicit { "subapi_stale_giveback_explicit" } else { "subapi_stale_giveback_drop" }, &format!("parked={} handed_out={:?} discriminant={}", was_parked, got, d));
+            if got != Some(d) {
+                let i = sink.next_index();
+                sink.sfail(i, "stale-handout", &format!("a give-back parked before its lock, a generation change, the give-back resumed, refill: the pool handed out generation {:?} under discriminant {}", got, d),
+                    "A: acquire(gen 0), give back -> parked at give_back_resource:before_lock; main: start_new_generation; release A; refill; acquire");
+            }
+        }
         // wake-up: a blocked acquirer gets the resource pushed later
         let pool2 = Arc::new(ResourcePool::<R>::new(1, vec![]));
         let p2 = pool2.clone();
@@ -354,5 +428,6 @@ fn main() {
             sink.sfail(i, "wake", "blocked acquirer was not woken by a give-back", "wake-up test");
         }
     }
+    sink.note("stale_handouts_in_schedules_using_the_two_call_refresh_of_the_api_outside_the_provers_protocol", &OUTSIDE.load(Ordering::Relaxed).to_string());
     sink.finish();
 }
